@@ -13,7 +13,8 @@ From PTK Require Import Lib.Sx Lib.Py Model.Document Model.BufferEdit Proofs.Buf
   Proofs.C02_Base
   Model.C09_Kill Model.C09_KillPatched Proofs.C09_Ring Proofs.C09_KillFacts Proofs.C09_YankFacts
   Proofs.C09_CutFacts Proofs.C09_LinesFacts Proofs.C09_RingBound Proofs.C09_RegFacts Proofs.C09_BlockFacts Proofs.C09_StepFacts
-  Proofs.C09_RunFacts Proofs.C09_OpFacts Proofs.C09_PopFacts Proofs.C09_SpanFacts Proofs.C09_BlockAccept Proofs.C09_BlockSpan.
+  Proofs.C09_RunFacts Proofs.C09_OpFacts Proofs.C09_PopFacts Proofs.C09_SpanFacts Proofs.C09_BlockAccept Proofs.C09_BlockSpan Proofs.C09_WordOpFacts Proofs.C09_BlockRemain.
+From PTK Require Model.C02_DocQueries Proofs.C02_Words Proofs.C02_WordsExact.
 Import ListNotations.
 Open Scope Z_scope.
 
@@ -646,22 +647,24 @@ Print Assumptions C09_vi_operator_motion_stores_cut.
    typed with or without a count: the register receives EXACTLY the characters
    between the cursor and the motion's target (text[x:y]), type CHARACTERS; d / c
    remove exactly those characters; y changes nothing; a motion that does not move
-   (k = 0) cancels the operator and nothing changes *)
-Theorem C09_vi_operator_inline_motions : forall s op reg m (argp : option Z),
+   (k = 0) cancels the operator and nothing changes.  Round 7: marg is a count typed
+   between operator and motion (0 = none); the motion sees op_count = the clamped
+   product of the two counts *)
+Theorem C09_vi_operator_inline_motions : forall s op reg m marg (argp : option Z),
   svi s = true -> ssel s = None -> Inv (sb s) ->
-  (match argp with Some a => fix_vi_cursor s = s /\ 0 <= a | None => True end) ->
+  (match argp with Some a => fix_vi_cursor s = s /\ 0 <= a | None => True end) -> 0 <= marg ->
   op = 0 \/ op = 1 \/ op = 2 -> 0 <= m <= 4 ->
   (op = 1 -> 0 <= reg -> is_register_name reg = true) ->
-  let arg := match argp with Some a => if 1000000 <=? a then 1 else a | None => 1 end in
+  let arg := op_count (match argp with Some a => if 1000000 <=? a then 1 else a | None => 1 end) marg in
   exists k, motion_obj (cur_doc s) m arg = Some (k, EXCLUSIVE) /\
     - len (current_line_before_cursor (cur_doc s)) <= k <= len (current_line_after_cursor (cur_doc s)) /\
-    (k = 0 -> exists s1, step s (ViOp op reg m) argp = (0, s1) /\
+    (k = 0 -> exists s1, step s (ViOp op reg m marg) argp = (0, s1) /\
               btext (sb s1) = btext (sb s) /\ sring s1 = sring s /\ sregs s1 = sregs s) /\
     (k <> 0 ->
      let x := bcur (sb s) + Z.min k 0 in
      let y := bcur (sb s) + Z.max k 0 in
      let span := firstn (Z.to_nat (y - x)) (skipn (Z.to_nat x) (btext (sb s))) in
-     exists s1, step s (ViOp op reg m) argp = (0, s1) /\
+     exists s1, step s (ViOp op reg m marg) argp = (0, s1) /\
        op_stored s s1 reg (mkclip span CHARACTERS) /\
        btext (sb s1) = (if op =? 1 then btext (sb s)
                         else firstn (Z.to_nat x) (btext (sb s)) ++ skipn (Z.to_nat y) (btext (sb s)))).
@@ -795,6 +798,112 @@ Theorem C09_visual_block_span : forall t cur orig (vi : bool),
          BLOCK.
 Proof. exact block_cut_data. Qed.
 Print Assumptions C09_visual_block_span.
+
+(* ---- round 7 ---- *)
+
+(* [count] [register] operator [count] motion, through [step], ANY modelled motion
+   (l h $ 0 ^ e b B w W), counts typed before the operator and / or between operator
+   and motion (d2l, 2 reg-a d 2 w): the text object sees the clamped product of the
+   counts (op_count), and the non-empty data TextObject.cut computes for it goes,
+   unchanged, into the register named BEFORE the operator (and nowhere else) or on
+   the unnamed ring; d / c install the cut document, y leaves the text *)
+Theorem C09_vi_operator_counts_register : forall s op reg m marg (argp : option Z) start oty t c data,
+  svi s = true -> ssel s = None ->
+  (match argp with Some _ => fix_vi_cursor s = s | None => True end) ->
+  op = 0 \/ op = 1 \/ op = 2 ->
+  (op = 1 -> 0 <= reg -> is_register_name reg = true) ->
+  let arg := match argp with Some a => if 1000000 <=? a then 1 else a | None => 1 end in
+  let n := op_count arg marg in
+  motion_obj (cur_doc s) m n = Some (start, oty) ->
+  (oty =? EXCLUSIVE) && (start =? 0) = false ->
+  tobj_cut (cur_doc s) start 0 oty = Some (Some (t, c), data) -> ctext data <> [] ->
+  exists s1, step s (ViOp op reg m marg) argp = (0, s1) /\
+    op_stored s s1 reg data /\
+    btext (sb s1) = (if op =? 1 then btext (sb s) else t).
+Proof. exact step_vi_op_counted. Qed.
+Print Assumptions C09_vi_operator_counts_register.
+
+(* count multiplication as the key processor does it *)
+Theorem C09_vi_operator_count_product : forall s op reg m marg (argp : option Z),
+  svi s = true -> ssel s = None ->
+  (match argp with Some _ => fix_vi_cursor s = s | None => True end) ->
+  step s (ViOp op reg m marg) argp =
+  (let arg := match argp with Some a => if 1000000 <=? a then 1 else a | None => 1 end in
+   let '(code, s') := vi_op s op reg m (op_count arg marg) in
+   if code =? 0 then (0, with_prev (fix_vi_cursor s') 60)
+   else if code =? E_UNMODELLED then (code, s) else (code, with_prev s' 0)).
+Proof. exact step_vi_op. Qed.
+Print Assumptions C09_vi_operator_count_product.
+
+(* the word motions under an operator against C02's exactness theorems (the model's
+   motion_obj calls C02's scanners; enumerates / pick / word_start / word_end /
+   word_cls are C02's): e aims at the n-th word end beyond cursor + 1 ... *)
+Theorem C09_motion_e_exact : forall d n l,
+  valid d -> 1 <= n ->
+  C02_WordsExact.enumerates (fun j => dcur d + 1 < j /\ C02_WordsExact.word_end (C02_DocQueries.word_cls false) (dtext d) j) l ->
+  motion_obj d 5 n = match C02_WordsExact.pick l n with Some j => Some (j - dcur d - 1, INCLUSIVE) | None => None end.
+Proof. exact motion_e_exact. Qed.
+Print Assumptions C09_motion_e_exact.
+
+(* ... b / B at the n-th word / WORD start before the cursor (none: the operator is cancelled) ... *)
+Theorem C09_motion_b_exact : forall d (big : bool) n l,
+  valid d -> 1 <= n ->
+  C02_WordsExact.enumerates (fun j => j < dcur d /\ C02_WordsExact.word_start (C02_DocQueries.word_cls big) (dtext d) j) l ->
+  motion_obj d (if big then 7 else 6) n =
+  Some (match C02_WordsExact.pick (rev l) n with Some j => j - dcur d | None => 0 end, EXCLUSIVE).
+Proof. exact motion_b_exact. Qed.
+Print Assumptions C09_motion_b_exact.
+
+(* ... w / W at the n-th word / WORD start after the cursor, else at the end of the text *)
+Theorem C09_motion_w_exact : forall d (big : bool) n l,
+  valid d -> 1 <= n ->
+  C02_WordsExact.enumerates (fun j => dcur d < j /\ C02_WordsExact.word_start (C02_DocQueries.word_cls big) (dtext d) j) l ->
+  motion_obj d (if big then 9 else 8) n =
+  Some (match C02_WordsExact.pick l n with Some j => j - dcur d | None => len (dtext d) - dcur d end, EXCLUSIVE).
+Proof. exact motion_w_exact. Qed.
+Print Assumptions C09_motion_w_exact.
+
+(* [register] d / y / c + e: the register receives exactly text[cursor : j), j the n-th
+   word end beyond cursor + 1; d / c remove exactly that; no such word end: nothing happens *)
+Theorem C09_vi_operator_e_span : forall s op reg n l,
+  Inv (sb s) -> op = 0 \/ op = 1 \/ op = 2 -> 1 <= n ->
+  (op = 1 -> 0 <= reg -> is_register_name reg = true) ->
+  C02_WordsExact.enumerates (fun j => bcur (sb s) + 1 < j /\ C02_WordsExact.word_end (C02_DocQueries.word_cls false) (btext (sb s)) j) l ->
+  match C02_WordsExact.pick l n with
+  | None => vi_op s op reg 5 n = ok s
+  | Some j =>
+      bcur (sb s) + 1 < j <= len (btext (sb s)) /\
+      exists s', vi_op s op reg 5 n = (0, s') /\
+        op_stored s s' reg (mkclip (firstn (Z.to_nat (j - bcur (sb s))) (skipn (Z.to_nat (bcur (sb s))) (btext (sb s)))) CHARACTERS) /\
+        btext (sb s') = (if op =? 1 then btext (sb s)
+                         else firstn (Z.to_nat (bcur (sb s))) (btext (sb s)) ++ skipn (Z.to_nat j) (btext (sb s)))
+  end.
+Proof. exact vi_op_e_span. Qed.
+Print Assumptions C09_vi_operator_e_span.
+
+(* what REMAINS after a visual BLOCK cut (x / d / reg-d): the new document's text is the
+   old text with exactly the index ranges [start(l) + left, start(l) + min(len(line l), right))
+   removed - one per row between the corners that reaches the left column, start(l) the
+   offset of row l - and everything between them kept ([strip]).  Index level; the
+   restatement per line is not proved. *)
+Theorem C09_visual_block_remaining : forall t cur orig (vi : bool),
+  0 <= cur <= len t -> 0 <= orig <= len t ->
+  let d := mkdoc t cur in
+  let p1 := translate_index_to_position d (Z.min cur orig) in
+  let p2 := translate_index_to_position d (Z.max cur orig) in
+  let fc := Z.min (snd p1) (snd p2) in
+  let tc := Z.max (snd p1) (snd p2) + (if vi then 1 else 0) in
+  exists nc,
+    fst (doc_cut_selection d (orig, BLOCK) vi) =
+    mk_document (strip t (block_ranges d fc tc (fst p1) (fst p2)) 0) nc.
+Proof. exact block_cut_remaining. Qed.
+Print Assumptions C09_visual_block_remaining.
+
+Example C09_visual_block_remaining_example :
+  let t := [97; 98; 99; 10; 100; 101; 102] in
+  strip t (block_ranges (mkdoc t 5) 1 2 0 1) 0 = [97; 99; 10; 100; 102].
+Proof. exact block_remaining_example. Qed.
+Print Assumptions C09_visual_block_remaining_example.
 
 (* the hypotheses are satisfiable: C-k on "ab\ncd" at 0 kills "ab" *)
 Example C09_example_kill_line :
